@@ -81,14 +81,16 @@ func (c *BaseClient) serve() error {
 					handler.Serve(publish.Message)
 				}
 			case QoS1:
-				// Ownership of the message is now transferred to the receiver.
+				// Ownership of the message is now transferred to the receiver,
+				// which may modify it: remember the identifier to acknowledge.
+				id := publish.Message.ID
 				c.mu.RLock()
 				handler := c.handler
 				c.mu.RUnlock()
 				if handler != nil {
 					handler.Serve(publish.Message)
 				}
-				pktPubAck := (&pktPubAck{ID: publish.Message.ID}).Pack()
+				pktPubAck := (&pktPubAck{ID: id}).Pack()
 				if err := c.write(pktPubAck); err != nil {
 					return wrapError(err, "sending PUBACK")
 				}
